@@ -192,6 +192,9 @@ pub enum Fault {
     Random { offset: usize, len: usize, seed: u64 },
     /// overwrite a header number/field with an extreme value
     Poke { offset: usize, bytes: Vec<u8> },
+    /// a sub-grid header rewritten *coherently* to announce side x side nodes (limits,
+    /// increments and GS_COUNT agree with each other, the file is as short as before)
+    HugeConsistent { subgrid: usize, side: u32 },
     /// a multi-byte UTF-8 character written at a header offset (text fields are sliced
     /// at fixed byte positions): which = 0 two bytes, 1 three bytes, 2 four bytes
     Utf8 { offset: usize, which: u8 },
@@ -309,8 +312,17 @@ impl GridSimA {
         }
     }
 
+    fn huge_cases(f: &BaseFile) -> u64 {
+        if f.ext == "gsb" {
+            // per sub-grid header: 2^24, 2^28, 2^30 and (2^16-1)^2 nodes
+            4 * (f.header_bytes.len() as u64 / 176).saturating_sub(1)
+        } else {
+            0
+        }
+    }
+
     fn cases(f: &BaseFile) -> u64 {
-        1 + f.trunc.len() as u64 + 8 * f.header_bytes.len() as u64 + 3 * f.header_bytes.len() as u64 + f.multi
+        1 + f.trunc.len() as u64 + 8 * f.header_bytes.len() as u64 + 3 * f.header_bytes.len() as u64 + Self::huge_cases(f) + f.multi
     }
 }
 
@@ -351,7 +363,7 @@ impl Engine for GridSimA {
 
     fn info() -> EngineInfo {
         EngineInfo {
-            rule: "gridsim-a: fault ENUMERATION at the decoder seam (BaseGrid::gravsoft / Ntv2Grid::new on a byte slice, then Grid::bands/contains/at). For each shipped grid file and each harness-generated well-formed file: the intact file; every truncation length (exhaustive for every file but one; the 2.8 MB deformation model: every line boundary in the thorough tier / a fixed subsample in quick, plus seeded interior offsets); every single-bit flip of every header byte (NTv2 overview and every sub-grid header record; the Gravsoft header line); a 2-, 3- and 4-byte UTF-8 character written at every header offset; and a seeded sample of multi-byte corruptions (zeroed block = torn page, duplicated block, splice with another file of the same format, random bytes, truncate+zero-fill, extreme values poked into header fields). After every decode that returns Ok a fixed set of ~60 points x 5 margins (corners, edges +-half cell, lattice, far outside, NaN, inf, subnormal) is queried. A case is one (file, fault); all enumerated cases are distinct by construction; non-trivial = the fault changes the bytes.",
+            rule: "gridsim-a: fault ENUMERATION at the decoder seam (BaseGrid::gravsoft / Ntv2Grid::new on a byte slice, then Grid::bands/contains/at). For each shipped grid file and each harness-generated well-formed file: the intact file; every truncation length (exhaustive for every file but one; the 2.8 MB deformation model: every line boundary in the thorough tier / a fixed subsample in quick, plus seeded interior offsets); every single-bit flip of every header byte (NTv2 overview and every sub-grid header record; the Gravsoft header line); a 2-, 3- and 4-byte UTF-8 character written at every header offset; every NTv2 sub-grid header rewritten coherently to announce 2^24 ... 2^32 nodes in a file as short as before; and a seeded sample of multi-byte corruptions (zeroed block = torn page, duplicated block, splice with another file of the same format, random bytes, truncate+zero-fill, extreme values poked into header fields). After every decode that returns Ok a fixed set of ~60 points x 5 margins (corners, edges +-half cell, lattice, far outside, NaN, inf, subnormal) is queried. A case is one (file, fault); all enumerated cases are distinct by construction; non-trivial = the fault changes the bytes.",
             real_components: &["geodesy grid decoders and Grid implementations (BaseGrid, Ntv2Grid)"],
             simulated_components: &["the storage: file contents after crash/truncation, media damage, torn writes"],
             assumptions: &[
@@ -406,6 +418,18 @@ impl Engine for GridSimA {
                 },
             };
         }
+        k -= 3 * f.header_bytes.len() as u64;
+        if k < Self::huge_cases(f) {
+            return PlanA {
+                file,
+                fault: Fault::HugeConsistent {
+                    subgrid: (k / 4) as usize,
+                    side: [4096u32, 16384, 32768, 65535][(k % 4) as usize],
+                },
+            };
+        }
+        k -= Self::huge_cases(f);
+        let _ = k;
         // seeded multi-byte corruption
         let mut rng = Rng::new(seed);
         let n = f.bytes.len().max(1);
@@ -521,6 +545,37 @@ impl Engine for GridSimA {
                 }
                 rec.fault("random_bytes");
             }
+            Fault::HugeConsistent { subgrid, side } => {
+                // header k starts at the k-th run of 176 header bytes after the overview
+                let start = f.header_bytes.get(176 * (subgrid + 1)).copied();
+                if let Some(h) = start {
+                    let be = bytes.get(8).copied().unwrap_or(11) != 11;
+                    let rd = |b: &[u8], off: usize| -> f64 { rd_f64(b, off, be) };
+                    let (s_lat, e_long) = (rd(&bytes, h + 72), rd(&bytes, h + 104));
+                    let inc = 1.0;
+                    let n = (*side - 1) as f64;
+                    let put = |b: &mut Vec<u8>, off: usize, v: f64| {
+                        let raw = if be { v.to_be_bytes() } else { v.to_le_bytes() };
+                        for (i, x) in raw.iter().enumerate() {
+                            if let Some(t) = b.get_mut(off + i) {
+                                *t = *x;
+                            }
+                        }
+                    };
+                    put(&mut bytes, h + 88, s_lat + n * inc); // N_LAT
+                    put(&mut bytes, h + 120, e_long + n * inc); // W_LONG
+                    put(&mut bytes, h + 136, inc); // LAT_INC
+                    put(&mut bytes, h + 152, inc); // LONG_INC
+                    let count = (*side as u64 * *side as u64).min(u32::MAX as u64) as u32;
+                    let raw = if be { count.to_be_bytes() } else { count.to_le_bytes() };
+                    for (i, x) in raw.iter().enumerate() {
+                        if let Some(t) = bytes.get_mut(h + 168 + i) {
+                            *t = *x;
+                        }
+                    }
+                }
+                rec.fault("coherent_huge_subgrid_header");
+            }
             Fault::Utf8 { offset, which } => {
                 let ch: &[u8] = match which % 3 {
                     0 => "\u{e9}".as_bytes(),
@@ -604,6 +659,8 @@ pub enum PlanB {
     Ntv2(Ntv2Spec),
     /// shipped .gsb against its .gsa twin
     Twin(String),
+    /// one base grid with a chain of this many nested sub-grids of the same extent
+    DeepChain(u32),
 }
 
 pub struct GridSimB;
@@ -706,6 +763,10 @@ impl Engine for GridSimB {
             return PlanB::Twin("5458_with_subgrid".to_string());
         }
         let mut rng = Rng::new(seed);
+        if rng.chance(0.00002) {
+            // a very deep parent/child chain (tens of thousands of levels): legal, if odd
+            return PlanB::DeepChain(20_000 + rng.below(20_000) as u32);
+        }
         if rng.chance(0.5) {
             PlanB::Gravsoft(GravsoftSpec::generate(&mut rng))
         } else {
@@ -718,6 +779,7 @@ impl Engine for GridSimB {
             PlanB::Gravsoft(g) => g.rows * g.cols * g.bands,
             PlanB::Ntv2(n) => n.subgrids.len(),
             PlanB::Twin(_) => 1,
+            PlanB::DeepChain(n) => *n as usize,
         }
     }
 
@@ -726,6 +788,7 @@ impl Engine for GridSimB {
             PlanB::Gravsoft(g) => serde_json::json!({"format":"gravsoft","rows":g.rows,"cols":g.cols,"bands":g.bands,"projected":g.projected,"header":[g.lat_s,g.lat_n,g.lon_w,g.lon_e,g.dlat,g.dlon],"file_head": String::from_utf8_lossy(&g.encode()).chars().take(160).collect::<String>()}),
             PlanB::Ntv2(n) => serde_json::json!({"format":"ntv2","big_endian":n.big_endian,"subgrids": n.subgrids.iter().map(|s| format!("{}<-{} {}x{}", s.name, s.parent, s.rows, s.cols)).collect::<Vec<_>>()}),
             PlanB::Twin(t) => serde_json::json!({"twin": t}),
+            PlanB::DeepChain(n) => serde_json::json!({"format":"ntv2","nested_levels": n}),
         }
     }
 
@@ -757,6 +820,12 @@ impl Engine for GridSimB {
                 }
             }
             PlanB::Twin(_) => {}
+            PlanB::DeepChain(n) => {
+                if *n > 2 {
+                    out.push(PlanB::DeepChain(n / 2));
+                    out.push(PlanB::DeepChain(n - 1));
+                }
+            }
         }
         out
     }
@@ -764,6 +833,59 @@ impl Engine for GridSimB {
     fn execute(&mut self, plan: &PlanB, rec: &mut Recorder) {
         rec.event();
         match plan {
+            PlanB::DeepChain(levels) => {
+                rec.probe("ntv2_very_deep_nesting");
+                use crate::gridcodec::SubGridSpec;
+                let mut subgrids = Vec::with_capacity(*levels as usize + 1);
+                for k in 0..=*levels {
+                    let v = (k % 1000) as f32 / 8.0;
+                    subgrids.push(SubGridSpec {
+                        name: format!("L{}", k),
+                        parent: if k == 0 { "NONE".to_string() } else { format!("L{}", k - 1) },
+                        s_lat: 0.0,
+                        n_lat: 3600.0,
+                        e_long: -3600.0,
+                        w_long: 0.0,
+                        lat_inc: 3600.0,
+                        long_inc: 3600.0,
+                        rows: 2,
+                        cols: 2,
+                        nodes: vec![(v, -v); 4],
+                    });
+                }
+                let spec = Ntv2Spec { big_endian: levels % 2 == 1, subgrids, meta: 0 };
+                let bytes = spec.encode();
+                rec.sig(util::hash_str(&format!("deep{}", levels)));
+                // decoded and queried on a thread with Rust's default stack of 2 MiB (what a
+                // library user's worker thread has), not on this process's 8 MiB main stack
+                let r = catch(|| {
+                    std::thread::scope(|s| {
+                        std::thread::Builder::new()
+                            .stack_size(2 << 20)
+                            .spawn_scoped(s, || {
+                                let grid = Ntv2Grid::new(&bytes)?;
+                                // a point inside every level: the deepest grid answers
+                                let c = Coor4D([0.5_f64.to_radians(), 0.5_f64.to_radians(), 0.0, 0.0]);
+                                Ok::<_, Error>((grid.at(&c, 0.0), grid.contains(&c, 0.0)))
+                            })
+                            .expect("spawn")
+                            .join()
+                            .unwrap_or_else(|_| panic!("decoder or query panicked on the worker thread"))
+                    })
+                });
+                match r {
+                    Ok(Ok((Some(v), true))) => {
+                        let want = (((*levels % 1000) as f64 / 8.0) / 3600.0).to_radians();
+                        if (v[0] - want).abs() > 1e-6 * want.abs() + 1e-12 {
+                            rec.violate("I-faith", "NTv2 node value decoded differently from what the file holds", format!("{} nested sub-grids: the innermost one should answer with {} but the lookup gives {}", levels, want, v[0]));
+                        }
+                    }
+                    Ok(Ok(other)) => rec.violate("I-faith", "NTv2 node position not covered by the decoded grid", format!("{} nested sub-grids: {:?}", levels, other.1)),
+                    Ok(Err(e)) => rec.violate("I-faith", "a well-formed NTv2 file is rejected", format!("{} nested sub-grids: {}", levels, e)),
+                    Err(p) => rec.violate("I-safe", &format!("decoder panics: {}", p), p.clone()),
+                }
+                rec.logf(|| format!("deep chain {} ok", levels));
+            }
             PlanB::Twin(stem) => {
                 rec.probe("gsa_twin");
                 let dir = repo().join("geodesy").join("gsb");
